@@ -243,6 +243,17 @@ func F5(yield func(Program)) {
 	for _, op := range []string{"=", "+=", "-=", "*=", "/="} {
 		idx := func() *N { return Call(Func("", nil, Inc("i", "++"), Return(Int(0)))) }
 		yield(prog("F5compound", []string{"x", "i"}, Var("x", List(Int(10), Int(20))), Var("i", Int(0)), Assign(Index(Id("x"), idx()), op, Int(5)), Expr(List(Id("x"), Id("i")))))
+		// nested targets: every sub-expression of the target is evaluated exactly once
+		grid := func() *N { return Var("g", List(List(Int(10), Int(20)), List(Int(30), Int(40)))) }
+		gm := func() *N { return Var("g", List(Map(Str("k"), Int(10)), Map(Str("k"), Int(30)))) }
+		mg := func() *N { return Var("g", Map(Str("a"), List(Int(10), Int(20)))) }
+		yield(prog("F5compound", []string{"g", "i"}, grid(), Var("i", Int(0)), Assign(Index(Index(Id("g"), idx()), Int(1)), op, Int(5)), Expr(List(Id("g"), Id("i")))))
+		yield(prog("F5compound", []string{"g", "i"}, grid(), Var("i", Int(0)), Assign(Index(Index(Id("g"), Int(1)), idx()), op, Int(5)), Expr(List(Id("g"), Id("i")))))
+		yield(prog("F5compound", []string{"g", "i"}, grid(), Var("i", Int(0)), Assign(Index(Index(Id("g"), idx()), idx()), op, Int(5)), Expr(List(Id("g"), Id("i")))))
+		yield(prog("F5compound", []string{"g", "i"}, gm(), Var("i", Int(0)), Assign(Attr(Index(Id("g"), idx()), "k"), op, Int(5)), Expr(List(Id("g"), Id("i")))))
+		yield(prog("F5compound", []string{"g", "i"}, mg(), Var("i", Int(0)), Assign(Index(Attr(Id("g"), "a"), idx()), op, Int(5)), Expr(List(Id("g"), Id("i")))))
+		yield(prog("F5compound", []string{"g", "i"}, grid(), Var("i", Int(0)), FuncDecl("row", nil, Inc("i", "++"), Return(Index(Id("g"), Int(1)))), Assign(Index(callE("row"), Int(0)), op, Int(5)), Expr(List(Id("g"), Id("i")))))
+		yield(prog("F5compound", []string{"g", "i"}, grid(), Var("i", Int(0)), Assign(Index(Index(Id("g"), Int(0)), Int(1)), op, idx()), Expr(List(Id("g"), Id("i")))))
 		yield(prog("F5compound", []string{"m"}, Var("m", Map(Str("a"), Int(6))), Assign(Attr(Id("m"), "a"), op, Int(2)), Expr(Id("m"))))
 		yield(prog("F5compound", []string{"m"}, Var("m", Map(Str("a"), Int(6))), Assign(Index(Id("m"), Str("a")), op, Int(2)), Expr(Id("m"))))
 		yield(prog("F5compound", []string{"v"}, Var("v", Int(6)), Assign(Id("v"), op, Int(2)), Expr(Id("v"))))
